@@ -1,28 +1,33 @@
 #!/bin/bash
 # Runs every mutant patch against the quick check of its property in an isolated scratch copy
 # (scratch worktree of /repo + copy of /verif with its own target dir). Writes mutants/RESULTS.txt.
-# usage: tools/sweep_mutants.sh [pattern]
+# usage: tools/sweep_mutants.sh [pattern] [scratch-name] ; SUITE=1 also runs the repository's own tests on each mutant
 PAT="${1:-*}"
-S=/tmp/msweep
+S=/tmp/${2:-msweep}
 rm -rf $S; mkdir -p $S
 git -C /repo worktree prune
 git -C /repo worktree add --detach $S/repo >/dev/null 2>&1 || exit 2
 rsync -a --exclude .target --exclude .git --exclude seeded /verif/ $S/verif/
 sed -i "s#path = \"/repo\"#path = \"$S/repo\"#" $S/verif/harness/Cargo.toml
 OUT=$S/RESULTS.txt; : > $OUT
-for patch in /verif/mutants/${PAT}.patch; do
+for patch in $(for pat in $PAT; do ls /verif/mutants/${pat}.patch 2>/dev/null; done | sort -u); do
   name=$(basename $patch .patch)
   prop=$(echo $name | cut -c1-3 | tr 'c' 'C')
   cd $S/repo
   if ! git apply $patch 2>/dev/null; then echo "$name $prop DOES-NOT-APPLY" >> $OUT; continue; fi
+  suite=""
+  if [ -n "${SUITE:-}" ]; then
+    r=$(CARGO_TARGET_DIR=$S/target-suite cargo test --workspace --no-fail-fast --offline 2>&1 | grep -E "^test result" | head -1 | grep -o "[0-9]* passed; [0-9]* failed")
+    suite=" suite=[$r]"
+  fi
   t0=$(date +%s)
   out=$(cd $S/verif && VERIF_DIR=$S/verif CARGO_TARGET_DIR=$S/target bin/check $prop quick 2>&1); code=$?
   t1=$(date +%s)
   rule=$(echo "$out" | grep -o "rule=[A-Za-z0-9_.]*" | head -1)
-  echo "$name $prop exit=$code $rule $((t1-t0))s" >> $OUT
+  echo "$name $prop exit=$code $rule $((t1-t0))s$suite" >> $OUT
   git checkout -- . 
   rm -rf $S/verif/replays/*/viol-*.json
 done
-cp $OUT /verif/mutants/RESULTS.txt
+cp $OUT /verif/mutants/RESULTS${2:+_$2}.txt
 cd /; git -C /repo worktree remove --force $S/repo; rm -rf $S
 echo sweep done
